@@ -67,6 +67,7 @@ def download(n, blks, crc, how, lose=(), final_loss=False):
     E = _exc()
     # crc: 1 both sides, 0 the server does not support it, 2 the client does not ask for it (request_crc_support=False)
     srv = BlockDownloadServer(blks, crc=bool(crc))
+    srv.sc_capability = (crc == 3)      # 3: like 2, and the server's sc bit states its capability all the same
     rig = LossyRig(srv, lose)
     idx = sx.fresh_int("idx", 0, 0xFFFF)
     sub = sx.fresh_int("sub", 0, 0xFF)
@@ -80,7 +81,7 @@ def download(n, blks, crc, how, lose=(), final_loss=False):
         else:
             buffering = 1024 if how == "buffered" else 0
         fp = rig.client.open(idx, sub, "wb", buffering=buffering, size=n,
-                             block_transfer=True, request_crc_support=(crc != 2))
+                             block_transfer=True, request_crc_support=(crc not in (2, 3)))
         try:
             _write_all(fp, payload, how)
         finally:
@@ -189,11 +190,11 @@ def jobs(tier):
         for blks in blkss:
             if n > 100 and blks[0] < 7 and blks != [2, 3, 1, 5]:
                 continue
-            for crc in (1, 0, 2):
+            for crc in (1, 0, 2, 3):
                 for how in ("buffered", "raw"):
                     if how == "raw" and (crc != 1 or n > 100):
                         continue
-                    if crc == 2 and blks not in ([127], [2, 3, 1, 5]):
+                    if crc in (2, 3) and blks not in ([127], [2, 3, 1, 5]):
                         continue
                     out.append(dict(func="download", params=dict(n=n, blks=blks, crc=crc, how=how), weight=n))
     # single loss in a non-final sub-block: every position
